@@ -44,6 +44,9 @@ def oracle_lines(rng, quick):
         fl = 1 if (wm & 4096 and rng.random() < 0.5) else 0
         lines.append('o_rt\t%d %d %d %d %d %d %d' % (seed, rng.choice([1, 1, 2, 3]), rng.choice([1, 2, 3, 5]),
                                                      rng.choice([1, 3, 6, 15]), wm, rm, fl))
+    # LINKR records (Refmac link ids) to a copy of the partner in a neighbouring cell, in the same asu, or unrestricted
+    for i in range(60 if quick else 3000):
+        lines.append('o_linkr\t%d' % rng.randrange(1, 2 ** 40))
     # repository files and line-length mutations of them
     for path in F.repo_pdb_files():
         lines.append('o_file\t%s 0' % path)
